@@ -144,5 +144,27 @@ func VerifC32Dispatch() {
 			}
 			rt.Assert(okRec, "record-carries-written-index-and-payload")
 		}
+		// no written row is delivered twice (rows are identified by bucket, day and value; rows of one
+		// request that share bucket and day are merged, the last value wins)
+		for i := 0; i < n; i++ {
+			if !covers[ti][bk[i]] {
+				continue
+			}
+			cnt := 0
+			for _, g := range tr.got {
+				if buckets[bk[i]]+"/2020.bin" == g.key && g.index == io.TimeToIndex(time.Unix(t0+86400*day[i], 0), 24*time.Hour) && len(g.payload) >= 4 && io.ToInt32(g.payload[:4]) == val[i] {
+					cnt++
+				}
+			}
+			distinct := true
+			for j := 0; j < n; j++ {
+				if j != i && bk[j] == bk[i] && day[j] == day[i] {
+					distinct = false // same bucket and day: merged or equal-looking records, counted above
+				}
+			}
+			if distinct {
+				rt.Assert(cnt == 1, "each-written-row-delivered-exactly-once")
+			}
+		}
 	}
 }
